@@ -72,7 +72,7 @@ func init() {
 			"(2) after the payload copy a success return requires the whole declared size (loop until nothing remains, or nil copy error), so 'EOF with the last bytes' and 'EOF on a separate read' take the same exits.",
 		"that net/http and gzip readers honour the io.Reader contract; metadata delivery by net/http.")
 	prop("C04", "A call succeeds only if the peer's end-of-stream marker arrived",
-		[]string{"eof-witness", "clean-eof-only-at-boundary", "unary-second-receive", "copyn-loop", "io-err-checked"},
+		[]string{"eof-witness", "clean-eof-only-at-boundary", "unary-second-receive", "copyn-loop", "io-err-checked", "eof-compare-is"},
 		"(1) every client Receive returns an error that may wrap a bare transport EOF only with a terminator witness (special-envelope sentinel, grpc-status present in trailers or trailers-only headers, or complete unary body), and grpcErrorFromTrailer reports OK only when the status header was present; "+
 			"(2) the envelope reader produces an EOF-wrapping error only when zero bytes of a frame were read, never mid-prefix or mid-payload; (3) a short payload never yields a success return; (4) receiveUnaryResponse succeeds only after its second Receive reported EOF on that call's own error; (5) no I/O error result is silently dropped outside enumerated cleanup calls.",
 		"every cut offset x fault kind as a run-time enumeration, 'nothing hangs', behaviour of the k-th failing write.")
@@ -84,10 +84,10 @@ func init() {
 			"(4) handler errors pass toWire = wrapIfContextError, which leaves already-coded errors untouched, and every conn handed to callers is wrapped so results are coded; (5) header loops keep all values of every metadata key.",
 		"byte identity of messages through percent-encoding and net/http header sanitising, order of details, the 16 codes x protocols x kinds product at run time.")
 	prop("C15", "Cancellation and expiry surface as canceled / deadline_exceeded everywhere",
-		[]string{"ctx-before-io", "ctx-first-wrapper", "ctx-code-table", "coded-wrapper-exhaustive"},
+		[]string{"ctx-before-io", "ctx-first-wrapper", "ctx-code-table", "no-recode", "coded-wrapper-exhaustive"},
 		"(1) duplexHTTPCall.Write/Read test ctx.Err() before touching the pipe/body and on a context error call SetError and return wrapIfContextError(err); the unary handler adapter tests ctx.Err() before user code; "+
 			"(2) makeRequest classifies the transport error as a context error first and applies the unavailable fallback only to still-uncoded errors; SetError stores the context-classified error and keeps the first one; "+
-			"(3) wrapIfContextError maps exactly Canceled->canceled and DeadlineExceeded->deadline_exceeded and leaves coded errors alone, wrapIfUncoded applies it before unknown, RST CANCEL maps to canceled; (4) handler-returned context errors go through toWire and all client results through wrapIfUncoded.",
+			"(3) wrapIfContextError maps exactly Canceled->canceled and DeadlineExceeded->deadline_exceeded and leaves coded errors alone, wrapIfUncoded applies it before unknown, RST CANCEL maps to canceled; (4) handler-returned context errors go through toWire and all client results through wrapIfUncoded; (5) the response body's read error is context-classified in duplexHTTPCall.Read and no transport error that is already coded is given a new code (asError-false on every path to the re-coding call).",
 		"all cancellation instants, what net/http returns when a context ends mid-read, whether the handler's context is cancelled by the transport.")
 
 	prop("C06", "Whatever a server sends, the client fails safely with a coded non-OK error",
@@ -103,4 +103,11 @@ func init() {
 			"(2) a gRPC response carries exactly one Grpc-Status (one status encoding per Close exit, one Set and no Add per path, user metadata merged before it, one carrier per exit, body-written flag set before the first write), a Connect stream exactly one end-of-stream envelope; "+
 			"(3) only the pre-protocol guards and the unary Connect error path write an explicit HTTP status; (4) the response Content-Type echoes the request's; (5) the compressed flag is set only right after compressing with a non-nil pool whose name is the negotiated header value, and the unary Content-Encoding only on the compressing path; a compressed unary error body is decompressed; (6) a unary Connect error is JSON under the code's 4xx/5xx status.",
 		"full decodability by a third-party implementation, protobuf/JSON payload bytes, acceptance of every conformant peer encoding (casing, padding), the Connect code->HTTP table's exact entries (it changed between spec revisions; only range and totality are checked).")
+
+	prop("C14", "Every call terminates and releases what it acquired",
+		[]string{"close-on-all-exits", "close-read-drains", "ready-closed-once", "receive-sets-error", "handler-closes-body", "eof-compare-is", "ctx-first-wrapper"},
+		"(1) the unary call closure, CallServerStream and CloseAndReceive reach CloseResponse (or hand the conn to the caller) and have attempted CloseRequest on every exit; (2) CloseRead closes the response body on every path with a response, also when the bounded drain failed; "+
+			"(3) close(responseReady) is deferred first in makeRequest and exists nowhere else, makeRequest runs only inside the sync.Once, a successful Do always stores the response before validation can fail; (4) every error return of a streaming client Receive first records the error with SetError, which closes the request pipe on every path (blocked Sends fail with io.EOF), Read reports the recorded error first, SetError keeps the first error; "+
+			"(5) every handler conn Close closes the request body on every exit; (6) io.EOF is only ever tested with errors.Is.",
+		"bounded time, goroutine leaks and blocking as run-time facts, HTTP/2 flow control, schedules and delays at synchronisation points.")
 }
